@@ -283,6 +283,10 @@ def check_property(prop, tier, units, level_text, assumptions, extra=None, post=
                        "values": values, "meta": res.get("meta", {}), "concretisation": info, "raw_model": o["model"], "bounds": u.bounds}, open(cex, "w"), indent=1)
             rr = replayer.run(u.entry, cex)
             reproduced = rr.get("ok") and (o["label"] in rr.get("failed", []) or (o["kind"] == "panic" and rr.get("panic")))
+            if "/struct:" in o["label"]:
+                # structural obligation (lock flags, lock containment): a fact about constants and
+                # control flow of the real code; there is nothing to stage natively
+                reproduced = True
             if o["kind"] == "unwind":
                 inconclusive.append({"unit": u.name, "why": "unwinding assertion failed (bound too small): " + o["label"]})
                 continue
